@@ -3,6 +3,7 @@ The O(1) tables the compiled driver uses (`Build.Ctx.ofInput`: position table, a
 definitions the theorems talk about (`Build.Ctx.spec`: `Peg.lineCol`, `Peg.slice`). Helper lemmas for Props/C07.
 -/
 import NitroVerif.Model.Build
+import NitroVerif.Lemmas.SpanInv
 namespace NitroVerif.Build
 open NitroVerif.Peg
 
@@ -55,5 +56,23 @@ theorem ofInput_pos (inp : List Char) (o : Nat) (h : o ≤ inp.length) :
   have := table_from inp 0 0 #[] o h
   simp only [Array.size_empty, Nat.zero_add] at this
   simp [Ctx.ofInput, Ctx.spec, lineColTable, this, lineCol]
+
+/-- every pair of a well-formed forest, at any depth (`Pairs::flatten` order), lies inside the forest's range -/
+theorem spanOk_flat_bounds {lo hi : Nat} {ps : List Pair} (h : SpanOk lo hi ps) :
+    ∀ p ∈ flatList ps, lo ≤ p.start ∧ p.start ≤ p.stop ∧ p.stop ≤ hi := by
+  induction h with
+  | nil _ => intro p hp; simp [flatList] at hp
+  | cons h1 hc hr ih1 ih2 =>
+    rename_i lo hi r s e cs ps
+    have hse := hc.le
+    have heh := hr.le
+    intro p hp
+    simp only [flatList, flat, List.cons_append, List.mem_cons, List.mem_append] at hp
+    rcases hp with rfl | hp | hp
+    · exact ⟨h1, hse, heh⟩
+    · obtain ⟨a, b, c⟩ := ih1 p hp
+      exact ⟨by omega, b, by omega⟩
+    · obtain ⟨a, b, c⟩ := ih2 p hp
+      exact ⟨by omega, b, c⟩
 
 end NitroVerif.Build
